@@ -19,6 +19,20 @@ def run(ctx, res):
     P = ctx.P
     PI.valstack_writers(P, res)
     reach, inv = PI.run(ctx, res, LAYERS, floor_fns=470, floor_sites=310)
+    # BREAK-VALUE: `break` supplies the loop's Unit exactly when the loop expression's value is used. An
+    # unconditional push leaves a stray value on the frame's value stack, where an enclosing `for` keeps its
+    # index and iterated value by position (-> `unreachable!("for loop index ...")`); no push at all starves
+    # the expression waiting for the loop's value.
+    eb = P.require_fn("eval::eval_break")
+    pv = [bi for bi, t in eb.calls() if M.callee_name(t) == "env::Env::push_value"]
+    used = D.field_switches(eb, "value_is_used")
+    if len(pv) == 1 and any(tt is not None and pv[0] in D.edge_dominated(eb, sb, tt) for (sb, ft, tt) in used):
+        res.ok("BREAK-VALUE", "eval_break pushes the loop's Unit only on the true edge of <loop expr>.value_is_used")
+    else:
+        res.bad("BREAK-VALUE", "eval::eval_break # loop-value",
+                "eval_break does not push the loop's Unit value exactly under `<loop>.value_is_used` (push sites=%d, guarded=%s): "
+                "a stray or missing value corrupts the positional value stack of enclosing loops and calls" % (
+                    len(pv), bool(pv) and any(tt is not None and pv[0] in D.edge_dominated(eb, sb, tt) for (sb, ft, tt) in used)), eb.loc())
     # INT-ARITH: signed overflow asserts must not exist at all in reachable code unless reviewed in the C04 table
     n = 0
     for f, s in inv:
